@@ -50,6 +50,28 @@ def _round0() -> list[dict]:
     return out
 
 
+# a rule shared by several properties is exercised under each of them
+ALIASES = {
+    "R02.depth": [("C07", "R07.depth")],
+    "R02.src": [("C07", "R07.src")],
+    "R02.stallpair": [("C07", "R07.stallpair")],
+    "R02.order": [("C07", "R07.order"), ("C08", "R08.order")],
+    "R02.drain": [("C07", "R07.drain")],
+    "R02.resolve": [("C07", "R07.resolve")],
+    "R11.load": [("C13", "R13.load")],
+    "R11.reset": [("C13", "R13.reset")],
+}
+
+
 def all_variants() -> list[dict]:
     from . import variants_extra
-    return _round0() + variants_extra.EXTRA
+    base = _round0() + variants_extra.EXTRA
+    out = list(base)
+    for v in base:
+        for prop, rule in ALIASES.get(v.get("rule") or "", []):
+            d = dict(v)
+            d.update({"id": f"{v['id']}@{prop}", "prop": prop, "rule": rule})
+            out.append(d)
+    ids = [v["id"] for v in out]
+    assert len(ids) == len(set(ids)), "duplicate variant ids"
+    return out
